@@ -36,25 +36,32 @@ NormToks(ts) == [i \in 1..Len(ts) |-> Norm(ts[i])]
 Total(r) == r.out \in {"ok", "err"}
 Bounded(r) == r.ahead <= 1
 RoundTrip(r) == r.rt \in {"eq", "na", "skip"}
-Conform(r) ==
-  r.kind = "toks" =>
-    LET p == Parse(NormToks(r.toks))
-    IN p.st = "ok" => (r.out = "ok" /\ r.tree = p.t)
+ConformTo(r, p) == p.st = "ok" => (r.out = "ok" /\ r.tree = p.t)      \* p = Parse of r.toks
+Conform(r) == r.kind = "toks" => ConformTo(r, Parse(NormToks(r.toks)))
 
-RecOK(r) == Total(r) /\ Bounded(r) /\ RoundTrip(r) /\ Conform(r)
+RecOK(r, p) == Total(r) /\ Bounded(r) /\ RoundTrip(r) /\ ConformTo(r, p)
+Why(r, p) == IF ~Total(r) THEN "total" ELSE IF ~Bounded(r) THEN "bounded"
+             ELSE IF ~RoundTrip(r) THEN "roundtrip" ELSE "conform"
 
 VARIABLE l
 tvars == <<l, sf>>
 
-TraceInit == l = 1 /\ sf = <<>>
-TraceNext == /\ l <= Len(Rec)
-             /\ RecOK(Rec[l])
-             /\ l' = l + 1
-             /\ UNCHANGED sf
+(* TLC register 1 counts the records about which the token grammar had an  *)
+(* opinion.  A rejected record is printed and the validation goes on (the  *)
+(* driver matches rejections against the known findings).                  *)
+TraceInit == l = 1 /\ sf = <<>> /\ TLCSet(1, 0)
+TraceNext ==
+  /\ l <= Len(Rec)
+  /\ LET r == Rec[l]
+         p == IF r.kind = "toks" THEN Parse(NormToks(r.toks)) ELSE [st |-> "na", t |-> <<>>]
+     IN /\ (IF p.st = "ok" THEN TLCSet(1, TLCGet(1) + 1) ELSE TRUE)
+        /\ (IF RecOK(r, p) THEN TRUE ELSE PrintT(<<"REJECT", l, Why(r, p), r.id>>))
+  /\ l' = l + 1
+  /\ UNCHANGED sf
 TraceSpec == TraceInit /\ [][TraceNext]_tvars
 
 Accepted ==
   LET d == TLCGet("stats").diameter
-  IN IF d - 1 = Len(Rec) THEN TRUE
-     ELSE Print(<<"REJECT", d, ToJson(Rec[d])>>, FALSE)
+  IN /\ PrintT(<<"OPINION", TLCGet(1)>>)
+     /\ IF d - 1 = Len(Rec) THEN TRUE ELSE Print(<<"INCOMPLETE", d>>, FALSE)
 =============================================================================
